@@ -246,6 +246,7 @@ func (f *faultKV) Save(k, v string) error {
 }
 
 type sys struct {
+	flushed bool // active region storage: nothing is pending in the batch
 	fk     *faultKV
 	bc     *core.BasicCluster
 	rc     *cluster.RaftCluster
@@ -260,6 +261,11 @@ type sys struct {
 
 var rsSeq int
 
+// activeRegionStorage: the region storage is switched on (what a PD leader does by default):
+// region records are collected in a batch and written by a flush; the storage comparison then
+// looks at the records right after a flush only (sys.flushed).
+var activeRegionStorage bool
+
 func newSys(withIdleRegionStorage bool) *sys {
 	ctx, cancel := context.WithCancel(context.Background())
 	fk := &faultKV{Base: kv.NewMemoryKV()}
@@ -272,6 +278,9 @@ func newSys(withIdleRegionStorage bool) *sys {
 			panic(err)
 		}
 		st = core.NewStorage(kv.NewMemoryKV(), core.WithRegionStorage(rs))
+		if activeRegionStorage {
+			st.SwitchToRegionStorage()
+		}
 		cancel0 := cancel
 		cancel = func() { cancel0(); rs.Close(); os.RemoveAll(dir) }
 	}
@@ -282,6 +291,14 @@ func newSys(withIdleRegionStorage bool) *sys {
 }
 
 func (s *sys) close() { s.cancel() }
+
+// pending: the region ids waiting in the region storage's batch (hidden state of the active region storage).
+func (s *sys) pending() string {
+	if !activeRegionStorage {
+		return ""
+	}
+	return fmt.Sprint(core.VerifPendingRegions(s.st))
+}
 
 func tmpDir() string {
 	if fi, err := os.Stat("/dev/shm"); err == nil && fi.IsDir() {
@@ -414,7 +431,7 @@ func (s *sys) observeList(l []*core.RegionInfo, when string, sequential bool) *h
 	if len(sc) != len(l) {
 		return &hist.Violation{Key: "scan", Msg: fmt.Sprintf("%s: ScanRegions returns %d regions, cache has %d", when, len(sc), len(l))}
 	}
-	if sequential && !s.fk.failed {
+	if sequential && !s.fk.failed && (!activeRegionStorage || s.flushed) {
 		// storage describes the same set (meta only); not after a failed save, which the heartbeat
 		// path tolerates (the record is written again by a later heartbeat)
 		var c []string
@@ -552,6 +569,7 @@ func sequentialOutcomes(streams [][]snap) map[string]bool {
 
 type model struct {
 	idle   bool // storage with a region storage that is not switched on
+	rs     bool // region storage switched on, plus a flush operation
 	faults bool // every heartbeat also in a variant whose region save fails; pd logs to a discarding debug-level logger
 	hs    []*thist
 	maxA  int
@@ -576,6 +594,9 @@ func (m *model) NumOps() int {
 	a := m.maxA
 	if m.faults {
 		a *= 2
+	}
+	if m.rs {
+		a++ // the flush
 	}
 	if len(m.hs) > a {
 		return len(m.hs)
@@ -603,11 +624,12 @@ func (m *model) Reset() {
 	if m.s != nil {
 		m.s.close()
 	}
+	activeRegionStorage = m.rs
 	if m.faults {
 		// every log line is formatted (and thrown away), as with a debug-level log file
 		log.ReplaceGlobals(discardLogger, &log.ZapProperties{})
 	}
-	m.s = newSys(m.idle)
+	m.s = newSys(m.idle || m.rs)
 	m.cur = -1
 }
 func (m *model) Enabled(op int) bool {
@@ -615,7 +637,7 @@ func (m *model) Enabled(op int) bool {
 		return op < len(m.hs)
 	}
 	_, _, ok := m.msgOf(m.hs[m.cur].msgs, op)
-	return ok
+	return ok || (m.rs && op == m.maxA)
 }
 
 // Possible implements hist.Prefilter.
@@ -624,7 +646,7 @@ func (m *model) Possible(h []int, op int) bool {
 		return op < len(m.hs)
 	}
 	_, _, ok := m.msgOf(m.hs[h[0]].msgs, op)
-	return ok
+	return ok || (m.rs && op == m.maxA)
 }
 
 func (m *model) OpName(op int) string {
@@ -633,6 +655,9 @@ func (m *model) OpName(op int) string {
 			return "history{" + m.hs[op].name + "}"
 		}
 		return fmt.Sprintf("history#%d", op)
+	}
+	if m.rs && op == m.maxA {
+		return "the region storage flushes its batch"
 	}
 	if i, f, ok := m.msgOf(m.hs[m.cur].msgs, op); ok {
 		if f {
@@ -647,6 +672,14 @@ func (m *model) Apply(op int) *hist.Violation {
 		m.cur = op
 		return nil
 	}
+	if m.rs && op == m.maxA {
+		if err := m.s.st.Flush(); err != nil {
+			panic(err)
+		}
+		m.s.flushed = true
+		return m.s.observe("after a flush", true)
+	}
+	m.s.flushed = false
 	i, f, _ := m.msgOf(m.hs[m.cur].msgs, op)
 	m.s.fk.failSave = f
 	defer func() { m.s.fk.failSave = false }()
@@ -655,7 +688,7 @@ func (m *model) Apply(op int) *hist.Violation {
 func (m *model) Key() string {
 	// the monotonicity trackers are part of the state: two histories that served different
 	// maxima must not be merged
-	return fmt.Sprintf("%d|%s|%v|%v|%v", m.cur, m.s.digest(), m.s.maxEp, m.s.keyVer, m.s.fk.failed)
+	return fmt.Sprintf("%d|%s|%v|%v|%v", m.cur, m.s.digest(), m.s.maxEp, m.s.keyVer, m.s.fk.failed) + m.s.pending()
 }
 
 // ---- engine A: concurrent streams ----
@@ -750,9 +783,11 @@ func main() {
 			{Name: "deliver/three/h2/len4", Tiers: "quick", Depth: 5, NewModel: func() hist.Model { return newModelFrom(2, true) }},
 			{Name: "deliver/h1/len4/idle-region-storage", Tiers: "quick", Depth: 5, NewModel: func() hist.Model { m := newModel(1); m.idle = true; return m }},
 			{Name: "deliver/h1/len3/save-faults+logging", Tiers: "quick", Depth: 4, NewModel: func() hist.Model { m := newModel(1); m.faults = true; return m }},
+			{Name: "deliver/h1/len4/region-storage+flushes", Tiers: "quick", Depth: 5, NewModel: func() hist.Model { m := newModel(1); m.rs = true; return m }},
 			{Name: "deliver/h1/len5", Tiers: "quick", Depth: 6, NewModel: func() hist.Model { return newModel(1) }},
 			{Name: "deliver/h3/len4", Tiers: "thorough", Depth: 5, NewModel: func() hist.Model { return newModel(3) }},
 			{Name: "deliver/h2/len4/save-faults+logging", Tiers: "thorough", Depth: 5, NewModel: func() hist.Model { m := newModel(2); m.faults = true; return m }},
+			{Name: "deliver/h2/len5/region-storage+flushes", Tiers: "thorough", Depth: 6, NewModel: func() hist.Model { m := newModel(2); m.rs = true; return m }},
 			{Name: "deliver/h2/len6", Tiers: "thorough", Depth: 7, NewModel: func() hist.Model { return newModel(2) }},
 		},
 		Rule: "TiKV histories (split/merge/conf-change/leader-change from 1-2 initial regions over 3 key points, with and without reported terms) are enumerated; engine B delivers every sequence with duplicates of a history's region snapshots to the real processRegionHeartbeat (first op = choice of history), engine A delivers windows of the alphabet from concurrent streams under every schedule",
